@@ -219,17 +219,9 @@ def run(ctx, out, tier):
     # ------------------------------------------------------------------ per-block isolation and fresh interpreters
     for name in ("keep-sorted", "keep-unique", "line-pattern", "line-count", "check-lua", "check-ai"):
         shared.sh_state(ctx, out, name)
-    from rules.C17 import factory_fn
-    facs = factory_fn(ctx)
-    if len(facs) == 1:
-        runners = [b for b in bodies if any(callee_matches(t, r"^mlua::Function::(call_async|call)$") for bi, t in b.calls())]
-        sites = [(b, bi, t) for b in bodies for bi, t in b.calls() if (t.get("res") or "") == facs[0].id]
-        if sites and runners and all(b.id in {r.id for r in runners} for b, bi, t in sites):
-            out.inst("C20.interp", 1, 1, ["one interpreter per script run"])
-        else:
-            out.viol("C20.interp", "C20.interp|shared", ctx.where(sites[0][0], sites[0][2]["span"]) if sites else "-",
-                     "a Lua interpreter is shared between concurrently running scripts: which script's globals a block sees depends on thread scheduling")
-            out.inst("C20.interp", 0, 1)
+    # one interpreter per script run (shared with C13 / C17 / C18)
+    from rules.C18 import check_fresh
+    check_fresh(ctx, out, "C20.interp")
     shared.sh_traverse(ctx, out)
     # which validators get created must not depend on the (hash-seeded) order in which files and blocks
     # are met: the lazy detection loop asks every pending detector about every block (shared with C14)
